@@ -66,6 +66,22 @@ func program(e *encode.Encoder, K int, picks []int, args []drive.Args) {
 func H_EncoderReset() {
 	K := vp.Param("K", 2)
 	var a, b encode.Encoder
+	if vp.Choice("history", 2) == 1 {
+		// a real earlier use (state a change may keep outside the fields dirty() knows):
+		// custom metadata, selector and register traffic, high resolution, a path
+		// abandoned in the middle of a run
+		hp := ivg.DefaultPalette
+		hp[2] = color.RGBA{0x10, 0x20, 0x30, 0xff}
+		a.Reset(ivg.ViewBox{MinX: -8, MinY: -8, MaxX: 8, MaxY: 8}, hp)
+		a.HighResolutionCoordinates = true
+		a.SetCSel(5)
+		a.SetCReg(0, true, ivg.RGBAColor(color.RGBA{0x40, 0, 0, 0xff}))
+		a.SetLOD(1, 2)
+		a.StartPath(0, 1, 1)
+		a.AbsLineTo(2, 2)
+		a.AbsLineTo(3, 3)
+		a.HighResolutionCoordinates = false
+	}
 	s := dirty()
 	a.VPSet(&s)
 	// every combination of default / custom viewBox and palette: the all-default
